@@ -152,6 +152,13 @@ func genXLSX(r *hx.Rng) *pkg {
 		}
 		p.Decoys = append(p.Decoys, d)
 	}
+	if !legacy { // near-name members (twins.go), from their own stream
+		p.addOOXMLTwins(r.Fork(0x7717), "xl", tSheet, usedNames, &rels, func(j int, t *part) {
+			t.ID = fmt.Sprintf("rId%d", ids[n+j]+1)
+			t.Title = fmt.Sprintf("%s %d", hx.Pick(r.Fork(uint64(0x7718+j)), sheetWords), (n+j)*7%10)
+			t.SheetID = sidBase + sids[n+j]
+		})
+	}
 	hx.Shuffle(r, rels)
 	if !legacy && r.Chance(1, 30) && len(p.Declared) > 1 { // duplicate Id: the declaration is ambiguous
 		rels = append(rels, [3]string{p.Declared[0].ID, tSheet, p.Declared[1].Ref})
